@@ -296,31 +296,29 @@ def x6(ctx):
     from .common import carried_uses
     fi = ctx.own_method("xandikos.store.index.AutoIndexManager", "find_present_keys")
     cfg = ctx.cfg(fi)
-    outer = [n for n in cfg.nodes if n.kind == "for" and dotted(n.ast.iter) == fi.params[1]]
+    from ..dataflow import DefUse, origins
+    du = DefUse(cfg)
+    outer = [n for n in cfg.nodes if n.kind == "for" and not n.extra.get("inlined_from")
+             and all(o.kind == "param" and o.name == fi.params[1] for o in origins(du, n, n.ast.iter))]
     if not outer:
         raise AnalysisError("find_present_keys: loop over the necessary keys not found")
     lp = outer[0]
     obs = []
-    # flags: names assigned a boolean constant inside the loop and tested inside the loop
+    # per-group state: every local name assigned inside the loop body (accumulators are only extended through
+    # method calls and are not assigned there; the loop targets are rebound by the loop itself)
     from .common import loop_body_nodes
+    from ..dataflow import _targets
     body = loop_body_nodes(cfg, lp)
     flags = set()
     for n in cfg.nodes:
-        if n.id in body and n.kind == "stmt" and isinstance(n.ast, ast.Assign) and isinstance(n.ast.value, ast.Constant) and isinstance(n.ast.value.value, bool):
-            for t in n.ast.targets:
-                if isinstance(t, ast.Name):
-                    flags.add(t.id)
-    for n in cfg.nodes:
-        if n.kind == "test" and n.id in body:
-            for x in ast.walk(n.ast):
-                if isinstance(x, ast.Name) and x.id not in flags:
-                    # a name tested in the loop and assigned a boolean anywhere in the function
-                    for m in cfg.stmt_nodes():
-                        if m.kind == "stmt" and isinstance(m.ast, ast.Assign) and isinstance(m.ast.value, ast.Constant) and isinstance(m.ast.value.value, bool) \
-                                and any(isinstance(t, ast.Name) and t.id == x.id for t in m.ast.targets):
-                            flags.add(x.id)
+        if n.id in body and n.kind == "stmt" and isinstance(n.ast, (ast.Assign, ast.AnnAssign, ast.AugAssign)):
+            tgts = n.ast.targets if isinstance(n.ast, ast.Assign) else [n.ast.target]
+            for t in tgts:
+                for nm, _idx in _targets(t):
+                    if "." not in nm and not nm.startswith("__ret_"):
+                        flags.add(nm)
     if not flags:
-        raise AnalysisError("find_present_keys: no per-group flag found")
+        obs.append(ctx.ok(fi.qualname, where(fi, lp), "no per-group state", "nothing is assigned inside the loop over the key groups"))
     for v in sorted(flags):
         cu = carried_uses(cfg, lp, v)
         obs.append(ctx.ob(not cu, fi.qualname, where(fi, lp), "flag `%s` is reset for every key group" % v,
